@@ -123,16 +123,16 @@ def jobs(prop, tier):
           for (mode, hstate, nm) in phases:
             if nm == 'arb':
                 for (case, cn) in ((0, 'won'), (1, 'lost'), (2, 'silent')):
-                    J.append(Job(prop, 'act_arb_%s_nn%d' % (cn, nn), 'C02_step.cpp', defs={'NNMAX': nn, 'PROP': pn, 'MODE': mode, 'HSTATE': hstate, 'ARBCASE': case}, unwind=5, shape='S', mem_gb=5, timeout=3000 if T else 600,
+                    J.append(Job(prop, 'act_arb_%s_nn%d' % (cn, nn), 'C02_step.cpp', defs={'NNMAX': nn, 'PROP': pn, 'MODE': mode, 'HSTATE': hstate, 'ARBCASE': case}, unwind=5, shape='S', timeout=3000 if T else 600,
                          unwindset={'vp_main': 257, 'RecListener': nn + 8, 'related': nn + 8, 'relatedActive': nn + 8, 'reqIsM': nn + 8, 'setVec': nn + 8},
-                         bounds='one handler step from every state in which the own arbitration address was written and its echo is awaited, case "%s" of {address echoed, other symbol, nothing read}, request NN <= %d' % (cn, nn), **BUS))
+                         bounds='one handler step from every state in which the own arbitration address was written and its echo is awaited, case "%s" of {address echoed, other symbol, nothing read}, request NN <= %d' % (cn, nn), **dict(BUS, solver='kissat', mem_gb=4.5)))   # kissat wins these; one process per query keeps the tier inside the memory of the machine
                 continue
             J.append(Job(prop, 'act_%s_nn%d' % (nm, nn), 'C02_step.cpp', defs={'NNMAX': nn, 'PROP': pn, 'MODE': mode, 'HSTATE': hstate}, unwind=5, shape='S', timeout=3000 if T else 300,
                          unwindset={'vp_main': 257, 'RecListener': nn + 8, 'related': nn + 8, 'relatedActive': nn + 8, 'reqIsM': nn + 8, 'setVec': nn + 8},
                          bounds='one handler step from every state of phase "%s" of an own exchange related to a sender monitor state, request NN <= %d, response NN <= %d' % (nm, nn, nn), **BUS))
     if prop in ('C03', 'C04'):
         BUS = dict(link=['lib/ebus/symbol.cpp', 'lib/ebus/device_trans.cpp', 'lib/ebus/result.cpp', 'lib/utils/thread.cpp'],
-                   models=['string', 'libc', 'sstream', 'posix', 'containers'], solver=('minisat', 'kissat'), devirt_exclude=['_ZN5ebusd16ActiveBusRequest'], mem_gb=6)
+                   models=['string', 'libc', 'sstream', 'posix', 'containers'], solver='kissat', devirt_exclude=['_ZN5ebusd16ActiveBusRequest'], mem_gb=6)
         pn = int(prop[2])
         nn = 1
         # (requests waiting, device arbitration state 0 idle / 1 armed / 2 address written) x handler state group
